@@ -161,6 +161,8 @@ type Solver struct {
 	Timeout  [4]int // ms per stage
 	Diff     bool   // cross-check every definite answer with a second back end
 	hardMemo map[int]bool
+	Debug    bool
+	lastVia  string
 	seq      int
 }
 
@@ -302,8 +304,16 @@ func (s *Solver) Check(assertions []*Term, vars []*Term, wantModel bool) (Result
 		if d.Seconds() > s.St.MaxQueryS {
 			s.St.MaxQueryS = d.Seconds()
 		}
+		if s.Debug && d.Seconds() > 2 {
+			sz := 0
+			for _, a := range assertions {
+				sz += a.Size()
+			}
+			fmt.Fprintf(os.Stderr, "slow query %.1fs: %d assertions, %d nodes, via %s\n", d.Seconds(), len(assertions), sz, s.lastVia)
+		}
 	}()
 	s.St.Queries++
+	s.lastVia = ""
 	// trivial cases
 	for _, a := range assertions {
 		if a.IsConst() && a.Val == 0 {
@@ -323,6 +333,7 @@ func (s *Solver) Check(assertions []*Term, vars []*Term, wantModel bool) (Result
 			continue
 		}
 		p := s.getProc(stage)
+		s.lastVia += p.name + ","
 		r, m, e := s.checkOn(p, assertions, vars, wantModel)
 		if r != Unknown {
 			s.St.BySolver[p.name]++
